@@ -4,6 +4,8 @@
 package main
 
 import (
+	"io/ioutil"
+	"os"
 	"crypto/ecdsa"
 	"crypto/elliptic"
 	"crypto/rand"
@@ -76,6 +78,8 @@ func makeLeaf(ca *x509.Certificate, cak *ecdsa.PrivateKey, cn string, dns []stri
 	return [2][]byte{pemCert(der), pemKey(k)}
 }
 
+var systemRootsFile string
+
 func getPki() *pki {
 	pkiOnce.Do(func() {
 		ca, cak, caPem := makeCA("verif test CA")
@@ -90,6 +94,15 @@ func getPki() *pki {
 		p.certs["client-good"] = makeLeaf(ca, cak, "client", nil, nil, false, true)
 		p.certs["client-foreign"] = makeLeaf(fca, fcak, "client", nil, nil, false, true)
 		thePki = p
+		// The foreign CA is a CA that the HOST trusts (it is the only entry of this process's system trust store) but that the
+		// configuration does not name: only the configured CA may vouch for a peer.
+		if f, err := ioutil.TempFile("", "verif-system-roots-*.pem"); err == nil {
+			f.Write(fcaPem)
+			f.Close()
+			os.Setenv("SSL_CERT_FILE", f.Name())
+			os.Setenv("SSL_CERT_DIR", "/nonexistent-verif")
+			systemRootsFile = f.Name()
+		}
 	})
 	return thePki
 }
